@@ -505,7 +505,7 @@ fn real_main() {
                 "fixture" => cases::fixture_inputs().into_iter().find(|i| i.source == src).map(|i| i.bytes).unwrap_or_default(),
                 "file" => std::fs::read(f[1]).unwrap(),
                 // deterministic families: regenerate the family and pick the member with this source string
-                "offsets" | "manyimp" | "ops" | "bodysizes" | "bodysizes-big" | "nocode" | "customname" | "noncanon" | "trailing" | "badnames" | "reffuncexp" => cases::resolve_inputs(f[0], 0).into_iter().chain(cases::resolve_inputs("bodysizes-big", 0)).find(|i| i.source == src).map(|i| i.bytes).unwrap_or_default(),
+                "offsets" | "manyimp" | "ops" | "bodysizes" | "bodysizes-big" | "nocode" | "customname" | "endcheck" | "noncanon" | "trailing" | "badnames" | "reffuncexp" => cases::resolve_inputs(f[0], 0).into_iter().chain(cases::resolve_inputs("bodysizes-big", 0)).find(|i| i.source == src).map(|i| i.bytes).unwrap_or_default(),
                 "exectab" | "dupimp" | "execbulk" => {
                     let (seed, k): (u64, u64) = (f[1].parse().unwrap(), f[2].parse().unwrap());
                     cases::resolve_inputs(&format!("{}:{}", f[0], k + 1), seed).into_iter().find(|i| i.source == src).map(|i| i.bytes).unwrap_or_default()
